@@ -36,8 +36,8 @@ def main():
     suite_ok = None
     if full_suite:
         os.remove(os.path.join(wt, "tests", tname + ".rs"))
-        rc2, o2 = sh("cargo test --workspace --no-fail-fast --offline 2>&1 | grep -E '^test result|FAILED|failed|error' | head -20", cwd=wt)
-        suite_ok = "FAILED" not in o2 and "failed" not in o2.replace("0 failed", "") and "error" not in o2
+        rc2, o2 = sh("cargo test --workspace --no-fail-fast --offline > /tmp/suite_%s.log 2>&1; echo EXIT=$?; grep -E '^test result' /tmp/suite_%s.log" % (tname, tname), cwd=wt)
+        suite_ok = "EXIT=0" in o2 and "FAILED" not in o2
         meta["confirmed"]["suite_output"] = o2[-800:]
     sh("git checkout -- . && git clean -fdq tests", cwd=wt)
     meta["confirmed"].update(patch_applies=(rca == 0), demo_passes_without=ok_without, demo_fails_with=fails_with,
